@@ -196,6 +196,12 @@ class C13(runner.Prop):
                     r = compare.spec_vs_model(spec, ms)
                     if r:
                         ctx.fail('order/spec', f'{where}: ns={ns!r}: {r}')
+                    # a treespec made while the namespace's *own* mode is on remembers that namespace (what is done with
+                    # it later - transposing, matching rests - must use the same dict order), whichever entry point made it
+                    s3 = optree.tree_structure(t, **kw)
+                    tags = {'flatten': spec.namespace, 'flatten_with_path': s2.namespace, 'tree_structure': s3.namespace}
+                    if len(set(tags.values())) != 1 or (ns and ns in S and spec.namespace != ns):
+                        ctx.fail('mode/namespace_tag', f'{where}: ns={ns!r} own mode {ns in S}: recorded namespaces {tags}')
                     d = model.same_tree(t, spec.unflatten(leaves))
                     if d:
                         ctx.fail('roundtrip', f'{where}: ns={ns!r}: {d}')
